@@ -114,6 +114,72 @@ func avgModelGrads(p *ref.Program, root int) []*ref.T {
 	return out
 }
 
+// seqGradCase: several roots of ONE program (graphs that may share leaves and,
+// inside the library, hidden intermediate nodes) are all built first and then
+// back-propagated one after the other; every tensor's gradient must be the sum
+// of the model's reverse passes.
+func seqGradCase(p *ref.Program, roots []int, o gradOpts) core.Verdict {
+	vals, ok := p.Forward()
+	if !ok {
+		return core.Fail("HARNESS: model rejects enumerated program")
+	}
+	if !p.DifferentiableAll(vals) {
+		return core.Skip()
+	}
+	sum := func(avg bool) []*ref.T {
+		total := make([]*ref.T, p.NTensors())
+		q, idmap := p, []int(nil)
+		qv := vals
+		if avg {
+			q, idmap = p.Expand()
+			qv, _ = q.Forward()
+		}
+		for _, r := range roots {
+			rr := r
+			if avg {
+				rr = idmap[r]
+			}
+			g, _ := q.Backward(qv, rr, nil, avg)
+			for i := 0; i < p.NTensors(); i++ {
+				gi := g[i]
+				if avg {
+					gi = g[idmap[i]]
+				}
+				if gi == nil {
+					continue
+				}
+				if total[i] == nil {
+					total[i] = gi.Clone()
+				} else {
+					for k := range gi.V {
+						total[i].V[k] += gi.V[k]
+					}
+				}
+			}
+		}
+		return total
+	}
+	ts, failed, err := rt.RunProgram(p)
+	if err != nil {
+		return core.Verdict{Detail: fmt.Sprintf("forward node %d (%s) returned an error on valid operands: %v", failed, p.Nodes[failed].Op, err), Data: p}
+	}
+	for _, r := range roots {
+		if err := tensor.BackPropagate(ts[r]); err != nil {
+			return core.Verdict{Detail: fmt.Sprintf("BackPropagate(t%d) failed: %v", r, err), Data: p}
+		}
+	}
+	mism := compareGradsOpt(p, ts, vals, sum(false), o.noValue)
+	if mism == "" {
+		return core.Pass()
+	}
+	if o.allowKF {
+		if compareGradsOpt(p, ts, vals, sum(true), o.noValue) == "" {
+			return core.Verdict{KF: kfBroadcastAvg, Detail: mism, Data: p}
+		}
+	}
+	return core.Verdict{Detail: fmt.Sprintf("roots %v back-propagated one after the other: %s", roots, mism), Data: p}
+}
+
 func compareGrads(p *ref.Program, ts []tensor.Tensor, vals, grads []*ref.T) string {
 	return compareGradsOpt(p, ts, vals, grads, nil)
 }
